@@ -88,6 +88,10 @@ let canon_doc = function
     let items = List.map (fun (k, v) -> (hex_of_str k, canon_tval v)) d in
     "{" ^ String.concat ";" (List.map (fun (k, v) -> k ^ "=" ^ v) (List.sort (fun (a, _) (b, _) -> compare a b) items)) ^ "}"
 let md5 s = Digest.to_hex (Digest.string s)
+let string_of_str (s : n list) : string =
+  let b = Buffer.create 256 in
+  List.iter (fun c -> Buffer.add_char b (Char.chr (int_of_n c))) s;
+  Buffer.contents b
 
 (* Get: Go's map iteration order is not observable; the model yields every
    possible answer and the observed one is accepted when it is among them *)
@@ -108,22 +112,33 @@ let history id =
     let rec trailer l (m, dp) = match l with
       | "MODE" :: x :: r -> trailer r (x, dp)
       | "DP" :: x :: r -> trailer r (m, x = "1")
-      | _ -> (m, dp) in
+      | "SRC" :: r -> toks := r; (m, dp)
+      | _ -> toks := []; (m, dp) in
     let (initmode, dp) = trailer !toks ("-", false) in
     disable_put := dp;
+    let pairs () = if !toks = [] then [] else
+        let n = next_int () in times n (fun () -> let k = next_str () in let v = next_str () in (k, v)) in
+    let tops = pairs () in
+    let ents0 = pairs () in
     (match x_open_store f with
      | None -> Printf.printf "%s LOADERR\n" id
      | Some st0 ->
        let st = ref st0 in
-       let res = ref [] and files = ref [] and saved = ref false in
+       let res = ref [] and files = ref [] and saved = ref false and ents = ref ents0 and sums = ref [] in
        List.iter (fun oh ->
-           if x_saves !st (fst oh) && not (dp && (match fst oh with Put (_, _) -> true | _ -> false)) then saved := true;
+           let saves_now = x_saves !st (fst oh) && not (dp && (match fst oh with Put (_, _) -> true | _ -> false)) in
+           if saves_now then saved := true;
+           ents := retire !ents (fst oh) saves_now;
            let (st', r) = step_hinted !st oh in
-           st := st'; res := r :: !res; files := md5 (canon_doc st'.st_file) :: !files) ops;
+           st := st'; res := r :: !res; files := md5 (canon_doc st'.st_file) :: !files;
+           (* the bytes of the file: untouched until the first save, then render_file *)
+           sums := (match st'.st_file with
+               | None -> "absent"
+               | Some d -> if !saved then md5 (string_of_str (render_file tops !ents d)) else "orig") :: !sums) ops;
        (* the mode of the config file: 0600 once anything was saved (Model/CredSave.v mode_file) *)
        let mode = if !saved then Printf.sprintf "%o" (int_of_n mode_file) else initmode in
-       Printf.printf "%s RES %s FILES %s FINAL %s MODE %s\n" id (String.concat " " (List.rev !res))
-         (String.concat " " (List.rev !files)) (canon_doc !st.st_file) mode)
+       Printf.printf "%s RES %s FILES %s FINAL %s MODE %s BYTES %s\n" id (String.concat " " (List.rev !res))
+         (String.concat " " (List.rev !files)) (canon_doc !st.st_file) mode (String.concat " " (List.rev !sums)))
 
 (* crash cut: paths are symbolic: D1 D2 .. (the chain of config-directory levels), P (config), T (temp).
    The first token lists the mode of every level, comma separated, "-" = missing. *)
